@@ -11,7 +11,7 @@ use serde_json::{json, Value};
 use std::collections::{BTreeSet, HashMap};
 use std::io::Write;
 use surf_n_term::{
-    render::TerminalRenderer, view::ViewContext, Cell, Error, Face, FaceAttrs, FillRule, Glyph, Image, Path, Position,
+    render::TerminalRenderer, Cell, Error, Face, FaceAttrs, FillRule, Glyph, Image, Path, Position,
     Size, SurfaceMut, SurfaceOwned, Terminal, TerminalCaps, TerminalCommand, TerminalEvent, TerminalSize,
     TerminalWaker, RGBA,
 };
@@ -75,7 +75,7 @@ impl Terminal for RecTerm {
 const NARROW: [u32; 6] = [0x20, 0x61, 0x62, 0x78, 0x2500, 0xE9];
 const WIDE: [u32; 3] = [0x4E16, 0x754C, 0x1F600];
 const ZERO: [u32; 2] = [0x0301, 0x07];
-const NFACES: u64 = 5;
+const NFACES: u64 = 7;
 const NIMAGES: u64 = 3;
 const NGLYPHS: u64 = 2;
 
@@ -86,23 +86,29 @@ struct Pools {
 }
 
 fn pools() -> Pools {
+    let red = Some(RGBA::new(200, 30, 30, 255));
+    let blue = Some(RGBA::new(20, 40, 160, 255));
     let faces = vec![
         Face::default(),
-        Face::new(Some(RGBA::new(200, 30, 30, 255)), None, FaceAttrs::EMPTY),
-        Face::new(None, Some(RGBA::new(20, 40, 160, 255)), FaceAttrs::EMPTY),
+        Face::new(red, None, FaceAttrs::EMPTY),
+        Face::new(None, blue, FaceAttrs::EMPTY),
         Face::new(Some(RGBA::new(250, 250, 10, 255)), Some(RGBA::new(10, 90, 10, 255)), FaceAttrs::BOLD),
-        // the value frame() uses to initialise its tracked face
+        // pairs that differ in one component only
+        Face::new(red, None, FaceAttrs::BOLD),
+        Face::new(red, blue, FaceAttrs::EMPTY),
+        // the value frame() used to initialise its tracked face with
         Face::default().with_bg(Some(RGBA::new(1, 2, 3, 255))),
     ];
     // pixels per cell are 20 x 10: cell sizes 1x1, 2x3, 3x2 (the last one through rounding up)
     let mk = |h: usize, w: usize, v: u8| {
         Image::from(SurfaceOwned::new_with(Size::new(h, w), |p| RGBA::new(v, (p.row * 7) as u8, (p.col * 5) as u8, 255)))
     };
-    let images = vec![mk(20, 10, 10), mk(40, 30, 20), mk(50, 15, 30)];
+    let images: Vec<Image> =
+        IMAGE_PIXELS.iter().enumerate().map(|(i, (ph, pw))| mk(*ph, *pw, 10 * (i as u8 + 1))).collect();
     let path: Path = "M1,1 L9,1 L9,9 L1,9 Z".parse().expect("path");
     let glyphs = vec![
-        Glyph::new(path.clone(), FillRule::NonZero, None, Size::new(1, 2), "g".to_string(), None),
-        Glyph::new(path, FillRule::EvenOdd, None, Size::new(1, 1), "h".to_string(), None),
+        Glyph::new(path.clone(), FillRule::NonZero, None, Size::new(GLYPH_CELLS[0].0, GLYPH_CELLS[0].1), "g".to_string(), None),
+        Glyph::new(path, FillRule::EvenOdd, None, Size::new(GLYPH_CELLS[1].0, GLYPH_CELLS[1].1), "h".to_string(), None),
     ];
     Pools { faces, images, glyphs }
 }
@@ -158,35 +164,40 @@ fn surf_coq(s: &Surf) -> String {
     }))
 }
 
-/// what the real code says about widths and sizes (the oracle tables of the case)
+/// The oracle tables of a case.  They are computed here, independently of the crate: display
+/// widths of the pool characters are the Unicode East-Asian-width facts, an image occupies ceil(pixels / pixels-per-cell)
+/// cells, a glyph image the glyph's declared size.
 struct Env {
-    ctx: ViewContext,
-    tsize: TerminalSize,
+    ppc: (usize, usize),
     isize: Vec<(usize, usize)>,
-    gsize: HashMap<(u32, u8), (usize, usize)>,
+}
+
+const IMAGE_PIXELS: [(usize, usize); 3] = [(20, 10), (40, 30), (50, 15)];
+const GLYPH_CELLS: [(usize, usize); 2] = [(1, 2), (1, 1)];
+
+fn char_width(ch: u32) -> usize {
+    if WIDE.contains(&ch) {
+        2
+    } else if ZERO.contains(&ch) {
+        0
+    } else {
+        1
+    }
 }
 
 impl Env {
-    fn new(p: &Pools, h: usize, w: usize) -> Env {
+    fn new(_p: &Pools, h: usize, w: usize) -> Env {
         let term = RecTerm::new(h.max(1), w.max(1));
-        let ctx = ViewContext::new(&term).expect("ctx");
-        let ppc = term.size.pixels_per_cell();
-        let isize = p.images.iter().map(|i| { let s = i.size_cells(ppc); (s.height, s.width) }).collect();
-        Env { ctx, tsize: term.size, isize, gsize: HashMap::new() }
+        let ppc = (term.size.pixels.height / term.size.cells.height, term.size.pixels.width / term.size.cells.width);
+        let isize = IMAGE_PIXELS.iter().map(|(ph, pw)| ((ph + ppc.0 - 1) / ppc.0, (pw + ppc.1 - 1) / ppc.1)).collect();
+        Env { ppc, isize }
     }
     fn width(&self, ch: u32) -> usize {
-        match char::from_u32(ch) {
-            Some(c) => Cell::new_char(Face::default(), c).size(&self.ctx).width,
-            None => 0,
-        }
+        char_width(ch)
     }
-    fn glyph_size(&mut self, p: &Pools, g: u32, f: u8) -> (usize, usize) {
-        let tsize = self.tsize;
-        *self.gsize.entry((g, f)).or_insert_with(|| {
-            let img = p.glyphs[g as usize % p.glyphs.len()].rasterize(p.faces[f as usize % p.faces.len()], tsize);
-            let s = img.size_cells(tsize.pixels_per_cell());
-            (s.height, s.width)
-        })
+    fn glyph_size(&mut self, _p: &Pools, g: u32, _f: u8) -> (usize, usize) {
+        let _ = self.ppc;
+        GLYPH_CELLS[g as usize % GLYPH_CELLS.len()]
     }
     /// rows x cols occupied by the multi-cell object owned by the cell, if it is one
     fn extent(&mut self, p: &Pools, c: C) -> Option<(usize, usize)> {
@@ -383,7 +394,7 @@ fn drive(p: &Pools, h: usize, w: usize, ops: &[Op]) -> Option<Vec<Vec<(String, V
     res.ok()
 }
 
-pub fn run(p: &Pools, input: &Value) -> Case {
+fn run(p: &Pools, input: &Value) -> Case {
     let h = input["h"].as_u64().unwrap_or(1) as usize;
     let w = input["w"].as_u64().unwrap_or(1) as usize;
     let ops = ops_parse(&input["ops"]);
@@ -507,7 +518,7 @@ struct Gen<'a> {
 impl<'a> Gen<'a> {
     fn face(&self, rng: &mut Rng) -> u8 {
         if rng.chance(1, 40) {
-            4
+            (NFACES - 1) as u8
         } else if rng.chance(2, 5) {
             0
         } else {
@@ -537,7 +548,7 @@ impl<'a> Gen<'a> {
         let (h, w) = (self.h, self.w);
         let r = rng.below(h as u64) as usize;
         let c = rng.below(w as u64) as usize;
-        match rng.below(16) {
+        match rng.below(19) {
             0 | 1 => s[r][c] = self.narrow(rng),
             2 | 3 => {
                 // a wide character
@@ -582,14 +593,19 @@ impl<'a> Gen<'a> {
                     }
                 }
             }
-            10 => {
-                // a cell under an image
+            10 | 16 | 17 => {
+                // a cell under an image / glyph: anywhere in its rectangle
                 let is = self.cells_where(s, |x| x.k != 0);
                 if !is.is_empty() {
                     let (r, c) = *rng.pick(&is);
-                    let r2 = (r + rng.below(3) as usize).min(h - 1);
-                    let c2 = (c + 1 + rng.below(2) as usize).min(w - 1);
-                    s[r2][c2] = self.narrow(rng);
+                    let owner = s[r][c];
+                    if let Some((eh, ew)) = self.env.extent(self.p, owner) {
+                        let r2 = (r + rng.below(eh.max(1) as u64) as usize).min(h - 1);
+                        let c2 = (c + rng.below(ew.max(1) as u64) as usize).min(w - 1);
+                        if (r2, c2) != (r, c) {
+                            s[r2][c2] = self.narrow(rng);
+                        }
+                    }
                 }
             }
             11 | 12 => {
@@ -665,7 +681,10 @@ fn gen_history(rng: &mut Rng, p: &Pools) -> Value {
 
 pub fn generate(rng: &mut Rng, n: usize, _tier: &str) -> Vec<Value> {
     let p = pools();
-    (0..n).map(|_| gen_history(rng, &p)).collect()
+    // the shared generator's streams for neighbouring seeds are shifts of one another; re-seed
+    // from its (well mixed) first output so that different VERIF_SEEDs give unrelated histories
+    let mut rng = Rng(rng.next());
+    (0..n).map(|_| gen_history(&mut rng, &p)).collect()
 }
 
 pub fn batch(inputs: &[Value]) -> Batch {
